@@ -297,9 +297,9 @@ C20_TYPES = ["ListInt", "ListListInt", "DictStrListInt", "DDictStrListInt", "Set
              "TupLit01", "LitBig", "LitBig", "Pixel", "Pixel", "ListPixel", "ListShade", "DictStrLitBig", "OptLitBig", "ListPerm",
              "Color", "Status", "Shade", "Perm", "DeepDefaults", "DeepDefaults", "ListDeepDefaults", "NT",
              "WithExtra5", "WithExtra5", "ListDateTime", "DictStrDateTime", "DefM1", "DefM2", "ListLitM1", "UUID"]
-C20_RECIPES = ["dt_format", "plain", "plain", "nm_extra_collect", "nm_extra_collect", "nm_omit_default", "nm_as_list", "nm_camel",
+C20_RECIPES = ["nm_extra_paths", "nm_extra_paths", "dt_format", "plain", "plain", "nm_extra_collect", "nm_extra_collect", "nm_omit_default", "nm_as_list", "nm_camel",
                "nm_extra_forbid", "validator_inner", "chain_node_children", "flag_names", "flag_names", "nm_saturator", "nm_saturator", "nm_paths", "nm_paths"]
-C20_CONV = ["CDq", "CDq", "OptListInner", "OptListInner", "OptDictInner", "CLinkStr", "ImplExtra", "ImplTags", "ImplTags","Outer", "OuterSame", "Inner", "InnerSame", "ListInner", "GIntGInt", "OptInner", "DictInner", "InnerTags", "M1M2",
+C20_CONV = ["MapAbs", "MapAbs", "CDq", "CDq", "OptListInner", "OptListInner", "OptDictInner", "CLinkStr", "ImplExtra", "ImplTags", "ImplTags","Outer", "OuterSame", "Inner", "InnerSame", "ListInner", "GIntGInt", "OptInner", "DictInner", "InnerTags", "M1M2",
             "CLink", "M1Str", "CTags", "CTags", "Ann", "Ann", "AnnList", "AnnDict"]
 
 
